@@ -491,7 +491,9 @@ class DefTag(Tag):
 
     def undeclared_identifiers(self):
         res = []
-        for c in self.function_decl.defaults:
+        for c in list(self.function_decl.defaults) + [
+            d for d in self.function_decl.kwdefaults if d is not None
+        ]:
             res += list(
                 ast.PythonCode(
                     c, **self.exception_kwargs
